@@ -131,7 +131,7 @@ func init() {
 		nol := L("(len(recv.Alert.Labels) == 0)", true)
 		lsOK := L("(am/alert.validateLs(recv.Alert.Labels) == nil)", true)
 		anOK := L("(am/alert.validateLs(recv.Alert.Annotations) == nil)", true)
-		E := [][]string{Vals("~fmt\\.Errorf\\(.*")}
+		E := [][]string{Vals(anyErr)}
 		o.Table(fn, "Validate", []Row{
 			{Name: "no start", Assume: A(zs), Ret: E},
 			{Name: "end before start", Assume: A(zs.Neg(), ze.Neg(), inv), Ret: E},
@@ -207,23 +207,37 @@ func init() {
 		af := o.Fn("(*am/api/v2.API).alertFilter$1")
 		ended := L("(p0.Alert.EndsAt <t p1)", true)
 		hasEnd := L("(time.Time).IsZero(p0.Alert.EndsAt)", false)
-		n := 0
-		for _, b := range af.Blocks {
-			for si := range b.Succs {
-				if li, ok := e.EdgeLit(b, si); ok && ended.F(li) {
-					n++
-					r := (&Walk{Fn: af}).FromEdge(b, si)
-					for _, rs := range e.ResultStores(af, 0) {
-						if r.Has(rs.Instr) {
-							o.Site(rs.Instr, "ended alert → "+e.X(af, rs.Val))
-							o.Check(e.X(af, rs.Val) == "false", "ended-shown", "an alert whose end time has passed is still returned", rs.Instr)
-						}
+		// an end that is set and has passed ⇒ dropped, in whichever order the two tests are made
+		if o.Check(e.CountLitEdges(af, ended)+e.CountLitEdges(af, ended.Neg()) > 0, "ended-test", "the alert filter no longer tests the end time against now", nil) {
+			r := (&Walk{Fn: af, Cut: e.CutContradicting(ended, hasEnd)}).FromEntry()
+			for _, ret := range r.Returns() {
+				for _, v := range e.RetVals(r, ret, 0) {
+					x := e.X(af, v)
+					if bv, ok := e.BoolUnder(af, v, []LitM{ended, hasEnd}); ok {
+						x = map[bool]string{true: "true", false: "false"}[bv]
 					}
+					o.Site(ret, "ended alert → "+x)
+					o.Check(x == "false", "ended-shown", "an alert whose end time has passed is still returned", ret)
 				}
 			}
 		}
-		o.Check(n > 0, "ended-test", "the alert filter no longer tests the end time against now", nil)
 		o.Check(e.CountLitEdges(af, hasEnd)+e.CountLitEdges(af, hasEnd.Neg()) > 0, "zero-end", "the alert filter must not drop alerts without end time", nil)
+		// conversely the time test drops nothing else: without end, or with an end not before now, the alert can still be returned
+		for _, cs := range []struct {
+			name   string
+			assume []LitM
+		}{{"an alert without end time", A(hasEnd.Neg())}, {"an alert whose end is not before now", A(hasEnd, ended.Neg())}} {
+			r := (&Walk{Fn: af, Cut: e.CutContradicting(cs.assume...)}).FromEntry()
+			kept := false
+			for _, ret := range r.Returns() {
+				for _, v := range e.RetVals(r, ret, 0) {
+					if e.X(af, v) != "false" {
+						kept = true
+					}
+				}
+			}
+			o.Check(kept, "live-dropped", cs.name+" is never returned", fnFirst(af))
+		}
 		// a not-ended alert is not dropped by the time test: under ¬ended the first false must be guarded by something else
 		gcAlertsRule(o)
 		o.MinSites(2)
